@@ -205,7 +205,7 @@ def two_body(res, tier):
                 viol(res, "two-body-exactness", integrator=name, opts=opts, direction=sgn, error=err)
 
 
-def measure(res, cfgs, masses, s0, refs, T, tag, dirs, accbound=5e-4):
+def measure(res, cfgs, masses, s0, refs, T, tag, dirs, accbound=5e-4, setup=None):
     """error at three step sizes against the reference; observed order >= advertised - 0.7 above the rounding floor"""
     nb = len(masses)
     floor = 3e-11
@@ -215,6 +215,8 @@ def measure(res, cfgs, masses, s0, refs, T, tag, dirs, accbound=5e-4):
         sim.G = G
         for i, m in enumerate(masses):
             sim.add(m=m / G, x=s0[6 * i], y=s0[6 * i + 1], z=s0[6 * i + 2], vx=s0[6 * i + 3], vy=s0[6 * i + 4], vz=s0[6 * i + 5])
+        if setup:
+            setup(sim)
         set_opts(sim, name, opts)
         sim.dt = sgn * T / n
         sim.steps(n)
@@ -338,6 +340,18 @@ def order_runs(res, adv, tier, valid=(), seed=0):
         lat = lattice_cfgs(adv, valid)
         measure(res, lat, masses, s0, refs, T, "lattice ", (1,))
         measure(res, lat[::3], masses, s0, refs, T, "lattice ", (-1,))
+        # test particles: type 0 (massless third body, N_active = 2) and type 1 (a light third body that acts on the active ones)
+        def tp0(sim):
+            sim.N_active = 2
+
+        def tp1(sim):
+            sim.N_active = 2
+            sim.testparticle_type = 1
+        m0 = [masses[0], masses[1], 0.0]
+        rf0 = {1: rk4_nbody(s0, m0, T, 2.5e-4), -1: rk4_nbody(s0, m0, -T, 2.5e-4)}
+        tpc = [c for c in cfgs if not (c[0] == "whfast" and c[1].get("kernel", "default") != "default")] + [c for c in lat if c[0] == "whfast" and c[1]["kernel"] == "default"][::2]
+        measure(res, tpc, m0, s0, rf0, T, "testparticle type 0 ", (1, -1), setup=tp0)
+        measure(res, tpc, masses, s0, refs, T, "testparticle type 1 ", (1,), setup=tp1)
         # further systems: 3 to 5 bodies, random masses and elements in the well-separated regime
         rng = random.Random(seed * 31 + 7)
         fixed = [c for c in cfgs if c[0] != "janus"]
@@ -349,7 +363,9 @@ def order_runs(res, adv, tier, valid=(), seed=0):
             measure(res, fixed + lat[k % 3::3], ms, st, rf, T, "random%d(N=%d) " % (k, nb), (-1,), accbound=5e-3)
     # adaptive schemes: accuracy and its response to the tolerance
     for sgn in (1, -1):
-        for name, tight, loose in (("ias15", {"epsilon": 1e-9}, {"epsilon": 1e-5}), ("bs", {"eps_rel": 1e-11, "eps_abs": 1e-11}, {"eps_rel": 1e-6, "eps_abs": 1e-6})):
+        for name, tight, loose in [("ias15", {"epsilon": 1e-9, "adaptive_mode": am}, {"epsilon": 1e-5, "adaptive_mode": am}) for am in (2, 0, 1, 3)] + \
+                [("ias15", {"epsilon": 0.0}, {"epsilon": 0.0}), ("ias15", {"epsilon": 1e-9, "min_dt": 0.02}, {"epsilon": 1e-5, "min_dt": 0.02}),
+                 ("bs", {"eps_rel": 1e-11, "eps_abs": 1e-11}, {"eps_rel": 1e-6, "eps_abs": 1e-6})]:
             errs = []
             for opts in (loose, tight):
                 sim = rebound.Simulation()
@@ -364,7 +380,7 @@ def order_runs(res, adv, tier, valid=(), seed=0):
                 ref = [refs[sgn][6 * i + k] for i in range(3) for k in range(3)]
                 errs.append(max(abs(a - b) for a, b in zip(got, ref)))
             res["order_runs"] += 1
-            res["observed"]["adaptive %s dir%+d" % (name, sgn)] = errs
+            res["observed"]["adaptive %s %s dir%+d" % (name, {k: v for k, v in tight.items() if k != "epsilon"}, sgn)] = errs
             if not errs[1] <= 1e-9 or not errs[1] <= errs[0] + 1e-12:
                 viol(res, "adaptive-accuracy", integrator=name, direction=sgn, loose=errs[0], tight=errs[1])
 
